@@ -82,9 +82,14 @@ class Ctx:
         """fewer instances than were confirmed by hand: the rule would pass vacuously.  Deferred to the end of the
         check: when other rules report a violation of the same tree that verdict stands (exit 1) and the shortfall is
         printed with it; with no violation the run is analysis-broken (exit 2), never a silent pass"""
+        # `floor` is the number of instances confirmed by hand on the reference tree.  The alarm threshold is two
+        # thirds of it (rounded up, at least 1): merging two sites into a helper, or moving a mutation behind a
+        # parameter of a helper, legitimately lowers a count by one or two; a rule that lost a third of its instances
+        # is looking at a different program
+        floor = max(1, (2 * floor + 2) // 3)
         if n < floor:
-            self.floor_errors.append('%s: only %d %s found, %d confirmed by hand on the reference tree - '
-                                     'the rule would pass vacuously' % (rule, n, what, floor))
+            self.floor_errors.append('%s: only %d %s found, fewer than two thirds of those confirmed by hand on the reference tree '
+                                     '(threshold %d) - the rule would pass vacuously' % (rule, n, what, floor))
 
     def raise_deferred(self, have_violations: bool):
         if self.floor_errors and not have_violations:
